@@ -55,6 +55,7 @@ type Interp struct {
 	Prefixes [][]int
 	Samples  []string
 	DoneVectors [][]uint64
+	StepProf map[*ssa.Function]int
 	rtPkg  *ssa.Package
 	base   map[int]Value // frozen heap after pre-init
 }
@@ -69,7 +70,7 @@ func New(prog *ssa.Program, sol *smt.Solver, cfg Config) *Interp {
 	in := &Interp{prog: prog, ts: term.NewStore(), sol: sol, cfg: cfg,
 		St:     Stats{Funcs: map[string]bool{}, Reach: map[string]int{}, Notes: map[string]int{}},
 		fninfo: map[*ssa.Function]*fnInfo{}, globalID: map[*ssa.Global]int{}, globalByID: map[int]*ssa.Global{},
-		feasCache: map[[2]int]bool{}}
+		feasCache: map[[2]int]bool{}, StepProf: map[*ssa.Function]int{}}
 	in.rtPkg = prog.ImportedPackage(cfg.RTPath)
 	return in
 }
@@ -280,6 +281,9 @@ func (in *Interp) run(s *State) (extra []*State) {
 		}
 		instr := f.block.Instrs[f.ip]
 		s.steps++
+		if profileSteps {
+			in.StepProf[f.fn]++
+		}
 		forks := in.safe(s, func() []*State { return in.step(s, th, f, instr) })
 		if s.status == Running {
 			in.afterStep(s, th)
@@ -429,6 +433,7 @@ func (in *Interp) addPC(s *State, c *term.Term) {
 }
 
 var debugPC = os.Getenv("VERIF_CHECKPC") != ""
+var profileSteps = os.Getenv("VERIF_PROFILE") != ""
 
 func (in *Interp) check(s *State, extra ...*term.Term) (smt.Result, error) {
 	if in.cfg.NoIncremental {
